@@ -15,7 +15,8 @@ LEVEL = "model_checking"
 REWRITES = loader.REWRITES
 STUBS = C03.STUBS
 ASSUMPTIONS = C03.ASSUMPTIONS + ["buffer contents are compared element by element (identity of the stored term, else solver-decided equality; NaN equals NaN)",
-                                 "values hidden under a False validity are arbitrary (including NaN), so a missing copy shows as a changed cell"]
+                                 "values hidden under a False validity are arbitrary (including NaN), so a missing copy shows as a changed cell",
+                                 "index edited between two cubes: the highest present category of the first dimension is moved to a new higher one with del / item assignment (well-formedness kept); shapes inferred"]
 ENGINE_OPTS = C03.ENGINE_OPTS
 AGGS = ["count", "valid_count", "sum", "mean"]
 
@@ -154,8 +155,14 @@ def explore(cfg, eng, ctx):
             agg, _, pol = spec.partition(":")
             ign = ignore if not pol else (pol == "ign")
             return "nan" if (agg == "valid_count" and fmt == "zero" and not ign) else fmt
+        mkcube = C.ccubes.ccube if side == "ccube" else C.xcubes.xcube
+        # the same fact object aggregated WITHOUT weights before and after the weighted calls (a repeated call whose result
+        # must not depend on what was computed in between with other arguments)
+        plain_first = None
         try:
-            cube = (C.ccubes.ccube if side == "ccube" else C.xcubes.xcube)(dims, interacting_shape=ishape)
+            if data.form != "none" and data.wform != "none":
+                plain_first = mkcube(dims, interacting_shape=ishape).calculate([getattr(mod, prefix + "sum")(fact, None, ignore, rma)])[0]
+            cube = mkcube(dims, interacting_shape=ishape)
             eng.assert_(unchanged(snaps), "cube construction changed an argument")
             fs = [mk(a) for a in trio]
             eng.assert_(unchanged(snaps), "aggregate construction changed an argument")
@@ -188,11 +195,32 @@ def explore(cfg, eng, ctx):
                     back = cube.calculate([fresh])[0]
                     eng.assert_(C05.same_outputs(back, alone[trio.index(a)], fm(a)),
                                 "a count object used on a cube with another number of rows gives a different result afterwards")
+            if plain_first is not None:
+                plain_again = mkcube(dims, interacting_shape=ishape).calculate([getattr(mod, prefix + "sum")(fact, None, ignore, rma)])[0]
+                eng.assert_(C05.same_outputs(plain_first, plain_again, fmt),
+                            "an unweighted sum of the same fact object differs after weighted aggregates of it were computed")
             eng.assert_(unchanged(snaps), "a later calculate changed an argument")
             if keys_before is not None:
                 ok = all(list(dict.keys(ix)) == k and ix.common == c and ix.shape == s for ix, (k, c, s) in zip(dims, keys_before))
                 eng.assert_(z3.BoolVal(ok), "an index argument changed its keys, common value or shape")
             eng.assert_(z3.BoolVal(rma is rma_before), "return_missing_as changed")
+            # an index that cubes have already seen (shape inferred from it), then edited by its owner: the next cube built
+            # over that object must give what a cube over an equal, never-seen index gives. Last step: it changes `dims`.
+            if side == "ccube" and not any(cfg["dims"]) and D >= 1:
+                cnt = lambda dd: C.ccubes.ccube(dd).calculate([C.ffuncs.ffunc_count(weights, None, ignore, rma)])[0]
+                cnt(dims)
+                ix = dims[0]
+                present = sorted(dict.keys(ix))
+                if present:
+                    top = present[-1]
+                    rows = ix[top]
+                    del ix[top]
+                    ix[(int(data.Es[0]),)] = rows          # the rows of the highest category move to a new, higher one
+                    fresh = C.iindexes.iindex.__new__(C.iindexes.iindex)
+                    dict.__init__(fresh, dict(dict.items(ix)))
+                    fresh.common, fresh.shape, fresh.rowid_dtype = ix.common, ix.shape, ix.rowid_dtype
+                    eng.assert_(C05.same_outputs(cnt(dims), cnt([fresh] + list(dims[1:])), fmt),
+                                "a cube over an index edited after an earlier cube saw it differs from a cube over an equal fresh index")
         except (Violation, Abort, Inconclusive, HarnessError):
             raise
         except Exception as ex:
